@@ -304,6 +304,12 @@ class Program:
             raise AnalysisError(f'anchor function {qname} not found')
         return f
 
+    def nfunc(self, qname, depth=2) -> Func:
+        """anchor function in normal form: newly extracted same-module helpers inlined, work-set aliases removed"""
+        from .inline import normalised
+
+        return normalised(self, self.func(qname), depth)
+
     def cls(self, qname) -> Class:
         c = self.classes.get(qname)
         if c is None:
